@@ -2,12 +2,12 @@ package main
 
 import (
 	"fmt"
-	"sync"
 	"go/constant"
 	"go/token"
 	"go/types"
 	"sort"
 	"strings"
+	"sync"
 
 	"golang.org/x/tools/go/ssa"
 )
@@ -17,45 +17,48 @@ import (
 // ---------------------------------------------------------------------------
 
 type Obl struct {
-	Name   string
-	Kind   string
-	Goal   string
-	Guard  string
-	NLines int
-	Pos    string
-	Tags   []string
-	Extra  []string // extra hypotheses
+	Name    string
+	Kind    string
+	Goal    string
+	Guard   string
+	NLines  int
+	Pos     string
+	Tags    []string
+	Extra   []string // extra hypotheses
 	Group   string   // obligations split from one clause share a group: the conjunction is tried first
 	Except  string   // known finding: SMT term of the recorded failing region (over the entry state)
 	Finding *Finding
 	Site    *SpecCtx // state at the obligation (call site): known-finding predicates may be stated over it
-	Src    string   // human-readable text of what is being proved
+	Src     string   // human-readable text of what is being proved
 }
 
 type Enc struct {
-	P        *Program
-	decls    []string
-	declared map[string]string
-	lines    []string
-	obls     []*Obl
-	n        int
-	notes    map[string]bool // assumptions / trusted things touched
-	used     map[string]bool // contracts used at call sites
-	inlined  map[string]bool
-	strUsed  bool
-	maxDepth int
-	noSafety bool
-	top      *Frame
-	names    map[string]int
-	watch    []WatchTerm // terms whose model values are wanted for replay
-	serial    int
-	refSerial map[string]int
-	dry       int // >0 while dry-running a loop body to find its write set
-	caseKey   string
-	topNames  map[string]Val
-	h0        *Heap
-	modWhole  map[string]string
-	modCells  []cellMod
+	P          *Program
+	decls      []string
+	declared   map[string]string
+	lines      []string
+	obls       []*Obl
+	n          int
+	notes      map[string]bool // assumptions / trusted things touched
+	used       map[string]bool // contracts used at call sites
+	inlined    map[string]bool
+	strUsed    bool
+	maxDepth   int
+	noSafety   bool
+	top        *Frame
+	names      map[string]int
+	watch      []WatchTerm // terms whose model values are wanted for replay
+	serial     int
+	refSerial  map[string]int
+	dry        int // >0 while dry-running a loop body to find its write set
+	caseKey    string
+	topNames   map[string]Val
+	h0         *Heap
+	modWhole   map[string]string
+	modCells   []cellMod
+	lockCheck  bool            // lock discipline obligations are generated
+	lockHeld   string          // "" (not held) | "r" | "w"
+	protected  map[string]bool // heap arrays protected by the guarding mutex
 	funDefs    map[string]*funInfo
 	lemmaSeen  map[string]int
 	usedLemmas map[string]bool
@@ -90,6 +93,16 @@ func (e *Enc) declare(name, sort string) string {
 		// pre-state: the heap is closed (stored references point to allocated objects or are nil)
 		if d, ok := refArrReg.Load(strings.TrimSuffix(name, "@0")); ok {
 			e.decls = append(e.decls, "(assert "+closureFact(q(name), d.(int), q("alloc@0"))+")")
+		}
+		if strings.HasPrefix(name, "ML_") {
+			e.decls = append(e.decls, "(assert "+mapLenFact(q(name))+")")
+		}
+		if d, ok := lenArrReg.Load(strings.TrimSuffix(name, "@0")); ok {
+			e.decls = append(e.decls, "(assert "+lenFact(q(name), d.(int))+")")
+		}
+		if strings.HasPrefix(name, "MD_") {
+			ml := e.declare("ML_"+strings.TrimPrefix(name, "MD_"), "(Array Int Int)")
+			e.decls = append(e.decls, fmt.Sprintf("(assert (forall ((r Int) (k Int)) (! (=> (select (select %s r) k) (>= (select %s r) 1)) :pattern ((select (select %s r) k)))))", q(name), ml, q(name)))
 		}
 	}
 	return q(name)
@@ -186,11 +199,24 @@ func (e *Enc) newRef(h *Heap, hint string) string {
 // refArrReg: heap arrays whose cells hold references (value = number of index dimensions)
 var refArrReg sync.Map
 
+// lenArrReg: heap arrays holding slice lengths (never negative)
+var lenArrReg sync.Map
+
 func regRef(name string, c Comp, dims int) string {
 	if c.Ref {
 		refArrReg.Store(name, dims)
 	}
+	if strings.HasSuffix(c.Suffix, "#len") {
+		lenArrReg.Store(name, dims)
+	}
 	return name
+}
+
+func lenFact(H string, dims int) string {
+	if dims == 1 {
+		return fmt.Sprintf("(forall ((r Int)) (! (>= (select %s r) 0) :pattern ((select %s r))))", H, H)
+	}
+	return fmt.Sprintf("(forall ((r Int) (i Int)) (! (>= (select (select %s r) i) 0) :pattern ((select (select %s r) i))))", H, H)
 }
 
 func fieldArr(root types.Type, path []int, c Comp) string {
@@ -215,6 +241,17 @@ func (e *Enc) assumeClosure(name, H, alloc string) {
 	if d, ok := refArrReg.Load(name); ok {
 		e.lines = append(e.lines, "(assert "+closureFact(H, d.(int), alloc)+")")
 	}
+	if strings.HasPrefix(name, "ML_") {
+		e.lines = append(e.lines, "(assert "+mapLenFact(H)+")")
+	}
+	if d, ok := lenArrReg.Load(name); ok {
+		e.lines = append(e.lines, "(assert "+lenFact(H, d.(int))+")")
+	}
+}
+
+// every map has a non-negative length
+func mapLenFact(H string) string {
+	return fmt.Sprintf("(forall ((r Int)) (! (>= (select %s r) 0) :pattern ((select %s r))))", H, H)
 }
 
 func (e *Enc) loadAt(h *Heap, a *Addr) Val {
@@ -356,6 +393,8 @@ func (e *Enc) typeFacts(v Val, h *Heap) string {
 			}
 			return and(sx("<=", "0", v.S), sx("<=", v.S, h.alloc))
 		}
+	case kRat:
+		return sx(">", v.Den, "0")
 	case kSlice:
 		return and(sx("<=", "0", v.Arr), sx("<=", v.Arr, h.alloc), sx("<=", "0", v.Len), sx("<=", v.Len, "1152921504606846976"))
 	case kStruct, kTuple:
@@ -414,9 +453,6 @@ func (P *Program) constTerm(c constant.Value, t types.Type) string {
 	case constant.String:
 		return num(int64(P.internString(constant.StringVal(c))))
 	case constant.Int:
-		if b, ok := t.Underlying().(*types.Basic); ok && b.Info()&types.IsFloat != 0 {
-			return c.ExactString() + ".0"
-		}
 		s := c.ExactString()
 		if strings.HasPrefix(s, "-") {
 			return "(- " + s[1:] + ")"
@@ -465,6 +501,7 @@ type loopInfo struct {
 	allocIn  string
 	heapIn   *Heap
 	frameInv []frameInvItem
+	backOrd  map[int]int // back-edge source block -> ordinal (stable under block renumbering)
 }
 
 type Frame struct {
@@ -485,6 +522,7 @@ type Frame struct {
 	loops    map[*ssa.BasicBlock]*loopInfo
 	dbg      map[string][]dbgRef
 	dryStack []*loopDry
+	cbSelf   *Val // receiver object of the callback field being called (bound to "self" in callback contracts)
 	ord      map[string]int
 	curBlock *ssa.BasicBlock
 	stack    []string // function keys on the inline stack
@@ -517,6 +555,13 @@ func (fr *Frame) val(v ssa.Value) Val {
 	case *ssa.Const:
 		if x.Value == nil {
 			return zeroVal(x.Type())
+		}
+		if isFloat(x.Type()) {
+			n, d := constant.Num(x.Value), constant.Denom(x.Value)
+			if n.Kind() != constant.Int || d.Kind() != constant.Int {
+				panic(unsupported("float constant %v", x.Value))
+			}
+			return Val{T: x.Type(), K: kRat, Num: fr.e.constTermP(n, types.Typ[types.Int]), Den: fr.e.constTermP(d, types.Typ[types.Int])}
 		}
 		return scalar(x.Type(), fr.e.constTermP(x.Value, x.Type()))
 	case *ssa.Global:
@@ -709,10 +754,13 @@ func (fr *Frame) merge(b *ssa.BasicBlock, ins []edgeInfo) BState {
 		rs = append(rs, i.reach)
 	}
 	reach := e.define(fmt.Sprintf("%sR%d", fr.prefix, b.Index), "Bool", or(rs...))
-	h := &Heap{m: map[string]string{}, dirty: map[string]int{}}
+	h := &Heap{m: map[string]string{}, dirty: map[string]int{}, lock: ins[0].heap.lock}
 	for _, i := range ins {
 		for k, v := range i.heap.dirty {
 			h.mark(k, v)
+		}
+		if i.heap.lock != h.lock {
+			h.lock = ""
 		}
 	}
 	names := map[string]bool{}
@@ -885,6 +933,66 @@ func (e *Enc) watchVal(label string, v Val, h *Heap, depth int, seen map[string]
 		for i := 0; i < n; i++ {
 			ev := e.loadAt(h, &Addr{K: aElem, Base: v.Arr, Idx: num(int64(i)), Root: et, N: -1})
 			e.watchVal(fmt.Sprintf("%s[%d]", label, i), ev, h, depth+1, seen)
+		}
+	}
+}
+
+// lock discipline -----------------------------------------------------------
+
+func (e *Enc) setupLocks(spec *FuncSpec) {
+	if !spec.Locks && !spec.Locked {
+		return
+	}
+	e.protected = map[string]bool{}
+	for _, g := range e.P.Guards {
+		if g.Pkg != spec.Pkg {
+			continue
+		}
+		for _, it := range g.Items {
+			for _, ns := range e.heapNamesUnder(g.Pkg, it) {
+				e.protected[ns[0]] = true
+			}
+		}
+	}
+	if len(e.protected) == 0 {
+		return
+	}
+	e.lockCheck = true
+	if spec.Locked {
+		e.lockHeld = "w"
+	}
+	e.h0.lock = e.lockHeld
+}
+
+// lockAccess emits the lock-discipline obligation for one access to a guarded heap array.
+func (fr *Frame) lockAccess(arr string, write bool, pos token.Pos, st *BState) {
+	e := fr.e
+	if !e.lockCheck || e.dry > 0 || !e.protected[arr] {
+		return
+	}
+	ok := st.heap.lock == "w" || (!write && st.heap.lock == "r")
+	goal := "false"
+	if ok {
+		goal = "true"
+	}
+	what := "read"
+	if write {
+		what = "write"
+	}
+	e.oblige(fr.oname("lock"), "lock", st.reach, goal, fr.pos(pos), "lock discipline: "+what+" of "+arr+" happens with the guarding mutex held", nil)
+}
+
+func (fr *Frame) lockAddr(a *Addr, write bool, pos token.Pos, st *BState) {
+	if !fr.e.lockCheck || a == nil || a.K == aGlobal {
+		return
+	}
+	t := typeAtPath(a.Root, a.Path)
+	for _, c := range flatten(t) {
+		switch a.K {
+		case aField:
+			fr.lockAccess(fieldArr(a.Root, a.Path, c), write, pos, st)
+		case aElem:
+			fr.lockAccess(elemArr(a.Root, a.Path, c), write, pos, st)
 		}
 	}
 }
